@@ -96,6 +96,8 @@ fn main() {
         "c07" => vh::c07::run(seed, &tier, shard, nshards),
         "c10" => vh::c10::run(seed, &tier, shard, nshards),
         "c12" => vh::c12::run(seed, &tier, shard, nshards),
+        "c15" => vh::c15::run(seed, &tier, shard, nshards),
+        "c08" => vh::c08::run(seed, &tier, shard, nshards),
         other => {
             eprintln!("unknown subcommand {other}");
             std::process::exit(2);
